@@ -437,6 +437,7 @@ Proof.
     rewrite (count_map_seq_other (is_unsub m) EStop) by reflexivity.
     destruct m; cbn; lia.
   - (* CloseSession exactly once *)
+    apply orb_true_intro. left.
     apply Nat.eqb_eq. repeat rewrite count_ev_app. unfold start_trace, seq_ev.
     rewrite (count_map_seq_other is_close EStop) by reflexivity.
     destruct r; repeat rewrite count_ev_app; destruct (runs _ o ph);
@@ -463,7 +464,9 @@ Qed.
 (* what the boolean predicate means *)
 Lemma cleanup_ok_sound : forall np l, cleanup_ok np l = true ->
   (forall m, count_ev (is_sub m) l = count_ev (is_unsub m) l) /\
-  count_ev is_close l = 1 /\
+  (count_ev is_close l = 1 \/
+   (count_ev is_close l = 0 /\ (forall m, count_ev (is_sub m) l = 0) /\
+    (forall p, p < np -> count_ev (is_run p) l = 0))) /\
   (forall p, p < np -> count_ev (is_stop p) l = 1 /\ count_ev (is_run p) l <= 1) /\
   last_pend l = Some false.
 Proof.
@@ -471,9 +474,14 @@ Proof.
   apply andb_prop in H. destruct H as [H H4].
   apply andb_prop in H. destruct H as [H H3].
   apply andb_prop in H. destruct H as [H1 H2].
-  repeat split.
+  split; [|split; [|split; [split|]]].
   - intro m. rewrite forallb_forall in H1. apply Nat.eqb_eq. apply H1. destruct m; cbn; tauto.
-  - now apply Nat.eqb_eq.
+  - apply orb_prop in H2. destruct H2 as [H2|H2]; [left; now apply Nat.eqb_eq|right].
+    apply andb_prop in H2. destruct H2 as [H20 HS]. unfold silent_session in HS.
+    apply andb_prop in HS. destruct HS as [HS1 HS2].
+    split; [now apply Nat.eqb_eq|]. split.
+    + intro m. rewrite forallb_forall in HS1. apply Nat.eqb_eq. apply HS1. destruct m; cbn; tauto.
+    + intros p Hp. rewrite forallb_forall in HS2. apply Nat.eqb_eq. apply HS2. apply in_seq. lia.
   - rewrite forallb_forall in H3. specialize (H3 p). rewrite in_seq in H3.
     assert (Hin : 0 <= p < 0 + np) by lia. apply H3 in Hin. apply andb_prop in Hin.
     now apply Nat.eqb_eq.
@@ -1122,4 +1130,16 @@ Proof.
   intros S cl rl live s p f ops o w r obs H. cbn [wcomm_ok] in H.
   apply andb_prop in H. destruct H as [H H3]. apply andb_prop in H. destruct H as [H1 H2].
   split; [|exact H3]. intros x [Hx|Hx]; [now apply (proj1 (none_in_spec _ _) H1) | now apply (proj1 (none_in_spec _ _) H2)].
+Qed.
+
+(* the context is already cancelled (or past its deadline) when Execute is entered: the session is
+   admitted and torn down like one cancelled before start - nothing is run, everything is released,
+   Execute returns nil *)
+Lemma cancelled_before_entry : forall r np,
+  session_trace r Cancelled BeforeEntry np = session_trace r Cancelled BeforeStart np /\
+  runs r Cancelled BeforeEntry = false /\
+  session_ret r Cancelled BeforeEntry = RNil /\
+  cleanup_ok np (session_trace r Cancelled BeforeEntry np) = true.
+Proof.
+  intros r np. repeat split. apply cleanup_complete.
 Qed.
